@@ -48,9 +48,9 @@ fn pid_of(v: &Value) -> ExternalPid {
 async fn issue(conn: &mut Connection, op: &Value) -> Result<(), String> {
     let a = pid_of(&op["a"]);
     let r = match op["op"].as_str().unwrap_or("") {
-        "send" => conn.send_message(a, pid_of(&op["b"]), build(&op["c"])).await,
+        "send" => conn.send_message(a, pid_of(&op["b"]), payload_of(op)).await,
         "send_to_name" => match build(&op["b"]) {
-            OwnedTerm::Atom(n) => conn.send_to_name(a, n, build(&op["c"])).await,
+            OwnedTerm::Atom(n) => conn.send_to_name(a, n, payload_of(op)).await,
             _ => return Err("bad name".into()),
         },
         "link" => conn.link(&a, &pid_of(&op["b"])).await,
@@ -74,6 +74,23 @@ async fn issue(conn: &mut Connection, op: &Value) -> Result<(), String> {
     r.map_err(|e| format!("{e:?}"))
 }
 
+/// the payload of an operation; "inflate": n stands for a binary of n bytes of value 7 (frames larger than the socket buffers)
+fn payload_of(op: &Value) -> OwnedTerm {
+    match op["inflate"].as_u64() {
+        Some(n) => OwnedTerm::Binary(vec![7u8; n as usize]),
+        None => build(&op["c"]),
+    }
+}
+
+/// a frame as JSON; frames beyond 64 KiB are summarised: head, total length and the length of the trailing run of 7s
+fn frame_json(f: &[u8]) -> Value {
+    if f.len() <= 65536 {
+        return bytes_json(f);
+    }
+    let run = f.iter().rev().take_while(|b| **b == 7).count();
+    json!({"big": true, "len": f.len(), "head": bytes_json(&f[..f.len().min(f.len() - run + 8).min(400)]), "run_of_7": run})
+}
+
 pub fn run_send(args: &[String]) -> i32 {
     // conn-send <ops.ndjson> <out.ndjson>
     let ops = read_ndjson(&args[0]);
@@ -95,13 +112,35 @@ pub fn run_send(args: &[String]) -> i32 {
                 return;
             };
             for op in ops.iter() {
-                let r = issue(&mut cp.conn, op).await;
-                // everything the operation wrote: read frames until the line stays quiet
+                let big = op["inflate"].as_u64().is_some();
                 let mut frames: Vec<Value> = Vec::new();
-                loop {
-                    match tokio::time::timeout(Duration::from_millis(if frames.is_empty() && r.is_ok() { 500 } else { 8 }), read_dist_frame(&mut cp.peer.rd)).await {
-                        Ok(Some(f)) => frames.push(bytes_json(&f)),
-                        _ => break,
+                let r;
+                if big {
+                    // the frame is larger than the socket buffers: the peer starts reading only after they have filled,
+                    // while the operation is still in progress
+                    let conn = &mut cp.conn;
+                    let rd = &mut cp.peer.rd;
+                    let (r0, fs) = tokio::join!(issue(conn, op), async {
+                        tokio::time::sleep(Duration::from_millis(150)).await;
+                        let mut fs = Vec::new();
+                        loop {
+                            match tokio::time::timeout(Duration::from_millis(1500), read_dist_frame(rd)).await {
+                                Ok(Some(f)) => fs.push(frame_json(&f)),
+                                _ => break,
+                            }
+                        }
+                        fs
+                    });
+                    r = r0;
+                    frames = fs;
+                } else {
+                    r = issue(&mut cp.conn, op).await;
+                    // everything the operation wrote: read frames until the line stays quiet
+                    loop {
+                        match tokio::time::timeout(Duration::from_millis(if frames.is_empty() && r.is_ok() { 500 } else { 8 }), read_dist_frame(&mut cp.peer.rd)).await {
+                            Ok(Some(f)) => frames.push(frame_json(&f)),
+                            _ => break,
+                        }
                     }
                 }
                 w.put(&json!({"id": op["id"], "mode": if header_mode { "header" } else { "pass_through" }, "result_ok": r.is_ok(), "err": r.err(), "frames": frames}));
